@@ -13,7 +13,7 @@ open Tongo Tongo.Tlb
 
 def tlbFuel : Nat := 1000000
 
-def outcomeStr {α} (f : α → String) : Outcome α → String
+private def outcomeStr {α} (f : α → String) : Outcome α → String
   | .ok a => "ok " ++ f a
   | .err _ => "err"
   | .panic _ => "panic"
